@@ -255,6 +255,7 @@ def dispatch (op : String) (args : List String) : Option String :=
         | [a, c] => (do pure (some (← decBytes a, ← decBytes c)))
         | _ => none)
       pure (encOptBytes (headTarget h (← decList refsAfter) b (← decList upd)))
+  | "parseable", [line] => do pure (encBool (parseFileChangeLine (← decBytes line)).isSome)
   | "striplookup", [content, queries] => do
       match parseStripIds (← decBytes content) with
       | none => pure "err"
